@@ -65,6 +65,25 @@ def run(ctx):
             for b in [c["b"]] + mutants(c["b"], rng, 4 if ctx.quick() else 25):
                 n += 1
                 cases.append({"id": "m%d" % n, "op": "bytes", "S": c["S"], "tn": c["tn"], "b": b})
+        # evolved-schema inputs: encodings written for another type of the family with the same field id --
+        # preferably one whose field has the same container kind (element / key / value types differ)
+        def shape(c):
+            d = [x for x in c["S"] if x["name"] == c["tn"]][0]
+            return d["fields"][0]["t"] if len(d["fields"]) == 1 else None
+        def rootk(t):
+            return t["k"] if t else None
+        single = [c for c in fam if shape(c) is not None and c["v"]["f"]]
+        by_kind = {}
+        for c in single:
+            by_kind.setdefault(rootk(shape(c)), []).append(c)
+        readers = {}
+        for c in single:
+            readers.setdefault(c["tn"], c)
+        for tn, rc in sorted(readers.items()):
+            pool = [w for w in by_kind.get(rootk(shape(rc)), []) if w["tn"] != tn] if rootk(shape(rc)) in ("map", "list", "set") else single
+            for w in rng.sample(pool, min(len(pool), 6 if ctx.quick() else 40)):
+                n += 1
+                cases.append({"id": "x%d" % n, "op": "bytes", "S": rc["S"], "tn": tn, "b": w["b"]})
     rows = c01.run_lab(ctx, lab, cases, name="c04")
     ctx.evals = len(rows)
     bad, drift = vlib.validate_trace(ctx, "C04Trace", rows, canary=canary, shard=600, timeout=3000)
